@@ -221,6 +221,7 @@ class Program:
                 if root in self.fns:
                     self.fns[root].closures.append(fn)
         self.field_renames = canonicalise_fields(self)
+        self.fn_renames = canonicalise_fns(self)
 
     def impl_fn(self, trait, self_ty, name):
         """method `name` of `impl trait for self_ty` (trait None = inherent)."""
@@ -253,6 +254,120 @@ class Program:
 
 class AnchorMissing(Exception):
     pass
+
+
+def fn_features(fn):
+    """what a function is made of, independent of its name and of local names: resolved callees (last two path
+    segments), literals, fields touched, struct / variant constructors"""
+    out = set()
+    if fn.body is None:
+        return out
+    for n in walk_fn(fn):
+        k = n.get("k")
+        if k in ("Call", "MethodCall"):
+            cal = callee_generic(n) or ""
+            if cal:
+                out.add("c:" + "::".join(cal.split("::")[-2:]))
+        elif k == "Lit":
+            v = n["lit"].get("v")
+            if isinstance(v, (str, int)) and len(str(v)) < 40:
+                out.add("l:" + str(v))
+        elif k == "Field":
+            out.add("f:" + str(n.get("f")))
+        elif k == "Struct" and n.get("def"):
+            out.add("s:" + n["def"].rsplit("::", 1)[-1])
+        elif k == "Path" and n.get("def") and n.get("res", "").startswith(("Ctor", "Const", "AssocConst", "Static")):
+            out.add("p:" + "::".join(n["def"].split("::")[-2:]))
+    return out
+
+
+def canonicalise_fns(prog):
+    """Re-bind canonical function paths (spec/fn_roles.json) that are missing from the fact base to the function
+    that plays the same role under another name: same module, same signature, closest feature set (Jaccard >= 0.5 and
+    clearly ahead of the runner-up).  The fact base is rewritten so that rules keep using the canonical paths.
+    Returns {actual path: canonical path}."""
+    rp = os.path.join(VERIF, "spec", "fn_roles.json")
+    if not os.path.exists(rp):
+        return {}
+    with open(rp) as fh:
+        roles = json.load(fh)
+    missing = [p for p in roles if p not in prog.fns]
+    if not missing and all(c in prog.statics for c in STATIC_ROLES):
+        return {}
+    taken = set(roles) & set(prog.fns)
+    by_module = {}
+    for p, f in prog.fns.items():
+        if f.dk == "Closure" or f.body is None or p in taken:
+            continue
+        by_module.setdefault(p.rsplit("::", 1)[0], []).append(f)
+    feats_cache = {}
+    mapping = {}
+    proposals = []
+    for canon in missing:
+        r = roles[canon]
+        cands = [f for f in by_module.get(r["module"], []) if f.d.get("sig") == r["sig"]]
+        want = set(r["feats"])
+        scored = []
+        for f in cands:
+            if f.path not in feats_cache:
+                feats_cache[f.path] = fn_features(f)
+            got = feats_cache[f.path]
+            j = len(want & got) / max(1, len(want | got))
+            scored.append((j, f.path))
+        scored.sort(reverse=True)
+        if scored and scored[0][0] >= 0.5 and (len(scored) == 1 or scored[0][0] - scored[1][0] >= 0.15):
+            proposals.append((scored[0][0], canon, scored[0][1]))
+    # one actual function can play one role only: best score first
+    used = set()
+    for sc, canon, actual in sorted(proposals, reverse=True):
+        if actual in used or actual in mapping:
+            continue
+        mapping[actual] = canon
+        used.add(actual)
+    # statics by role: the one static of a given type in a module keeps its canonical name
+    for canon, (module, ty_rx) in STATIC_ROLES.items():
+        if canon in prog.statics:
+            continue
+        cands = [p for p, st in prog.statics.items() if p.rsplit("::", 1)[0] == module and p not in STATIC_ROLES and (re.search(ty_rx, st.get("ty") or "") or (ty_rx == "<opaque>" and st.get("ty") == p))]
+        if len(cands) == 1:
+            mapping[cands[0]] = canon
+    if not mapping:
+        return {}
+    olds = sorted(mapping, key=len, reverse=True)
+    rx = re.compile(r"(?<![\w])(" + "|".join(re.escape(o) for o in olds) + r")(?![\w])")
+
+    def ren(sv):
+        if not any(o in sv for o in olds):
+            return sv
+        return rx.sub(lambda m: mapping[m.group(1)], sv)
+    KEYS = ("path", "def", "inst", "fn", "root", "cdef", "rk", "fnargs", "self", "trait", "ty", "aty", "dty")
+    for crate in prog.crates.values():
+        stack = [crate["fns"], crate["impls"], crate["statics"]]
+        while stack:
+            n = stack.pop()
+            if isinstance(n, dict):
+                for k2 in KEYS:
+                    v = n.get(k2)
+                    if isinstance(v, str):
+                        nv = ren(v)
+                        if nv is not v:
+                            n[k2] = nv
+                stack.extend(v for v in n.values() if isinstance(v, (dict, list)))
+            elif isinstance(n, list):
+                stack.extend(n)
+    newfns = {}
+    for p, f in prog.fns.items():
+        f.path = f.d.get("path", ren(p))
+        newfns[f.path] = f
+    prog.fns = newfns
+    prog.statics = {st["path"]: st for st in prog.statics.values()}
+    return mapping
+
+
+STATIC_ROLES = {
+    "rbx_types::shared_string::STRING_CACHE": ("rbx_types::shared_string", "<opaque>"),
+    "rbx_types::unique_id::INDEX": ("rbx_types::unique_id", r"^core::sync::atomic::Atomic<u32>$"),
+}
 
 
 # Private state structs whose fields the rules talk about.  A field is identified by its *type* (role), so renaming a
